@@ -74,7 +74,11 @@ func fixedFloor[T fixed.Dx](e *Evaluator, arguments string) (any, error) {
 	if err != nil {
 		return nil, err
 	}
-	return value.Trunc(), nil
+	floor := value.Trunc()
+	if floor > value {
+		floor -= f64.From[T, int](1) // Trunc goes toward zero, floor goes down
+	}
+	return floor, nil
 }
 
 func fixedIf[T fixed.Dx](e *Evaluator, arguments string) (any, error) {
